@@ -32,6 +32,41 @@ def assignFrom : Int → List Slot → Res (List Slot)
 
 def assignIDs (f : List Slot) : Res (List Slot) := assignFrom 0 f
 
+/-! ### the parser (asm/local.go createLocals): explicit IDs as WRITTEN in the source -/
+
+/-- a value slot as written in the source: `written = some k` for an explicit `%k` (or label `k:`), `none` when no identifier is written
+    (or the identifier is a name) -/
+structure SrcSlot where
+  named : Bool
+  written : Option Int
+  counts : Bool
+  deriving Repr, DecidableEq
+
+/-- the scaffold the parser hands to AssignIDs: the written ID goes into the ID field, where 0 doubles as "not yet assigned" -/
+def SrcSlot.toSlot (s : SrcSlot) : Slot := ⟨s.named, s.written.getD 0, s.counts⟩
+
+/-- asm/local.go explicitZeroIDs + the loop after AssignIDs: a local written `%0` must still have ID 0 -/
+def zeroKept : List SrcSlot → List Slot → Bool
+  | s :: ss, r :: rs => (!(s.written == some 0 && !s.named) || r.id == 0) && zeroKept ss rs
+  | _, _ => true
+
+/-- asm/local.go createLocals: scaffold, AssignIDs, then the explicit-%0 check -/
+def parseAssignFrom (next : Int) (src : List SrcSlot) : Res (List Slot) :=
+  match assignFrom next (src.map SrcSlot.toSlot) with
+  | .error => .error
+  | .ok l => if zeroKept src l then .ok l else .error
+
+def parseAssign (src : List SrcSlot) : Res (List Slot) := parseAssignFrom 0 src
+
+namespace LLVMSpec
+/-- what LLVM's own parser demands of explicit IDs: each unnamed value-producing slot that carries a written ID carries exactly its number -/
+def agreesFrom : Int → List SrcSlot → Bool
+  | _, [] => true
+  | next, s :: rest =>
+    if !s.counts || s.named then agreesFrom next rest
+    else (s.written == none || s.written == some next) && agreesFrom (next + 1) rest
+end LLVMSpec
+
 namespace LLVMSpec
 /-- LLVM's numbering: unnamed value slots get 0, 1, 2, ... in order; everything else is untouched -/
 def numberFrom : Int → List Slot → List Slot
